@@ -17,6 +17,38 @@ func init() {
 	vRegister("HarnessC16Clean", HarnessC16Clean)
 	vRegister("HarnessC16Prefix", HarnessC16Prefix)
 	vRegister("HarnessC16Damage", HarnessC16Damage)
+	vRegister("HarnessC16Tight", HarnessC16Tight)
+}
+
+// HarnessC16Tight: as the clean stream, but the caller's buffer is exactly as
+// large as the longest encoded frame (the documented minimum) and the
+// wrapper's message limit is the longest payload, so the length guards sit at
+// their boundaries; optional extra delimiters between frames.
+func HarnessC16Tight() {
+	dev := &c16Dev{maxCut: vParam("cuts", 64)}
+	cw := NewCobsWrapper(dev, vParam("flen", 2)+2)
+	var frames [][]byte
+	maxEnc := 0
+	for i, k := 0, vParam("frames", 2); i < k; i++ {
+		n := 1 + vChoose(vParam("flen", 2))
+		p := vBytes(n)
+		frames = append(frames, append([]byte{}, p...))
+		for j, z := 0, vChoose(vParam("nulls", 1)+1); j < z; j++ {
+			dev.stream = append(dev.stream, 0) // idle delimiters on the line
+		}
+		_, err := cw.Write(p)
+		vAssert(err == nil, "write succeeds")
+		if e := len(cobs.Encode(frames[i])); e > maxEnc {
+			maxEnc = e
+		}
+	}
+	for i := range frames {
+		buf := make([]byte, maxEnc)
+		c, err := cw.Read(buf)
+		vAssert(err == nil, "tight buffer: Read returns no error")
+		vAssert(c16Equal(buf[:c], frames[i]), "tight buffer: Read returns the frames written, intact, in order")
+	}
+	vCover("tight: all frames read")
 }
 
 // c16Dev is the scripted serial device: Write appends to the stream, each
